@@ -257,3 +257,14 @@ def zero_facts(p):
         elif tv is False:
             out.append((sv_affine(atom), bev))
     return out
+
+
+def noepoch(sv):
+    """drop the memory-epoch component of field/element reads (identity of the location, not of the read)"""
+    if isinstance(sv, tuple):
+        if len(sv) == 4 and sv[0] == "fld":
+            return ("fld", noepoch(sv[1]), sv[2])
+        if len(sv) == 4 and sv[0] == "elem":
+            return ("elem", noepoch(sv[1]), noepoch(sv[2]))
+        return tuple(noepoch(x) for x in sv)
+    return sv
